@@ -33,6 +33,10 @@ def run(chk, prog):
                    'storage, one count per row, division by the own count, that matrix returned)')
     nearest(chk, prog, R_n)
     centroid_mean(chk, prog, R_c)
+    R_u = chk.rule('SEL.unselect', 'MDC: the object just selected gets rank 0 and no later store of the ranking loop can overwrite it (every non-zero rank '
+                   'store is under "index != selected"), the ranking loop visits every row, and the information vector is multiplied by the rank vector '
+                   'over all objects: a selected object can never be selected again (distinct indices)')
+    mdc_unselect(chk, prog, R_u)
     R_s = chk.rule('KM.converged', 'shouldStop reports convergence only when EVERY coordinate of EVERY centroid equals the previous one within the '
                    'documented absolute tolerance EPSILON (first mismatch => "not converged"), and KMeans loops on exactly that test')
     converged(chk, prog, R_s)
@@ -390,3 +394,85 @@ def converged(chk, prog, R):
     else:
         chk.instance(R, '%s KMeans main loop is not driven by shouldStop' % g.where, 'refuted')
         chk.violation(Finding('KM.converged', rel(g.file), g.name, 'loop', g.where, 'KMeans no longer iterates until shouldStop() reports convergence'))
+
+
+def mdc_unselect(chk, prog, R):
+    f = prog.funcs.get('MDC')
+    if f is None or f.body is None:
+        chk.broke('MDC not found')
+        return
+
+    def bad(construct, node, msg):
+        chk.instance(R, '%s MDC: %s' % (f.unit.where(node) if node is not None else f.where, msg), 'refuted')
+        chk.violation(Finding('SEL.unselect', rel(f.file), f.name, construct, f.unit.where(node) if node is not None else f.where, 'MDC: ' + msg))
+    # the selected index: the variable appended to the selection vector
+    sel = None
+    for n in walk(f.body):
+        if n.get('kind') == 'CallExpr' and callee_name(n) == 'UIVectorAppend':
+            a = call_args(n)
+            if strip(a[1]).get('kind') == 'DeclRefExpr':
+                sel = strip(a[1])['referencedDecl'].get('name')
+    if sel is None:
+        chk.broke('MDC: the appended selection variable was not found')
+        return
+    # the product  info[i] *= rank[i]
+    prod = None
+    for n in walk(f.body):
+        if n.get('kind') == 'CompoundAssignOperator' and n.get('opcode') == '*=':
+            l, r = exprs.text_key(kids(n)[0]), exprs.text_key(kids(n)[1])
+            if '->data[' in l and '->data[' in r and l.split('->data[')[1] == r.split('->data[')[1]:
+                prod = (n, l.split('->data[')[0], r.split('->data[')[0])
+    if prod is None:
+        chk.broke('MDC: the product of the information vector with the rank vector was not found')
+        return
+    pnode, info, rank = prod
+    pm = flow.parent_map(f.body)
+    ploop = [a for a in flow.ancestors(pm, pnode) if a.get('kind') == 'ForStmt']
+    pi = flow.induction(ploop[0]) if ploop else None
+    if pi and str(pi['init']) == '0' and pi['op'] == '<' and exprs.text_key(pi['bound_expr']) in ('%s->size' % info, '%s->size' % rank):
+        chk.instance(R, '%s information vector *= rank vector over all objects' % f.unit.where(pnode))
+    else:
+        bad('product-range', pnode, 'the product of the information vector with the rank vector does not run over all objects')
+    # stores into the rank vector
+    stores = [n for n in walk(f.body) if n.get('kind') == 'BinaryOperator' and n.get('opcode') == '=' and exprs.text_key(kids(n)[0]).startswith(rank + '->data[')]
+    zero_for_sel = False
+    for n in stores:
+        idx = exprs.text_key(kids(n)[0])[len(rank) + 7:-1]
+        is_zero = _is_zero(kids(n)[1])
+        # guards on the path
+        g_eq = g_ne = False
+        child = n
+        for anc in flow.ancestors(pm, n):
+            if anc.get('kind') == 'IfStmt':
+                c, t, e = flow.if_parts(anc)
+                c0 = strip(c)
+                if c0.get('kind') == 'BinaryOperator' and c0.get('opcode') in ('==', '!=') and {exprs.text_key(kids(c0)[0]), exprs.text_key(kids(c0)[1])} == {idx, sel}:
+                    in_then = any(x is child for x in walk(t)) if t is not None else False
+                    eq = (c0['opcode'] == '==') == in_then
+                    g_eq, g_ne = g_eq or eq, g_ne or (not eq)
+            child = anc
+        if is_zero and (idx == sel or g_eq):
+            zero_for_sel = True
+            chk.instance(R, '%s rank of the selected object := 0' % f.unit.where(n))
+        elif is_zero:
+            chk.instance(R, '%s rank[%s] := 0' % (f.unit.where(n), idx), 'undecided')
+        elif g_ne:
+            chk.instance(R, '%s non-zero rank stored only for objects other than the selected one' % f.unit.where(n))
+        else:
+            bad('overwrite:%s' % idx, n, 'the rank store `%s` is not guarded by `%s != %s`: when the selected object is met in the ranking loop its rank 0 is '
+                'overwritten and the object can be selected again (duplicate indices) -- where it sorts depends on the metric' % (f.unit.text(n)[:50], idx, sel))
+    if not zero_for_sel:
+        bad('no-zero', None, 'the selected object never receives rank 0')
+    # the ranking loop visits all rows of the sorted table
+    rl = None
+    for n in stores:
+        for anc in flow.ancestors(pm, n):
+            if anc.get('kind') == 'ForStmt':
+                rl = anc
+                break
+    if rl is not None:
+        ri = flow.induction(rl)
+        if ri and str(ri['init']) == '0' and ri['op'] == '<' and exprs.text_key(ri['bound_expr']).endswith('->row'):
+            chk.instance(R, '%s the ranking loop visits every row of the sorted table' % f.unit.where(rl))
+        else:
+            bad('rank-range', rl, 'the ranking loop starts at %s: it assumes where the selected object sorts, which depends on the metric' % (ri['init'] if ri else '?'))
